@@ -161,9 +161,9 @@ static int fragments_needed_three_data(xor_code_t *code_desc, int *missing_data,
     // Include all data elements except for this one
     *data_bm |= code_desc->parity_bms[parity_index-code_desc->k];
   } else {
-    // Include both parity elements
-    *parity_bm |= (1 << (contains_2d-code_desc->k));
-    *parity_bm |= (1 << (contains_3d-code_desc->k));
+    // Include both parity elements (contains_2d/3d are already relative indexes)
+    *parity_bm |= (1 << contains_2d);
+    *parity_bm |= (1 << contains_3d);
     // And all other data elements that didn't cancel out
     *data_bm |= tmp_parity_bm;
   }
